@@ -121,19 +121,14 @@ func (s *Sorts) structSort(t types.Type, u *types.Struct) string {
 			name = name[:60] + shortHash(k)
 		}
 	}
-	if s.inProgress[k] {
-		// recursive struct by value through arrays etc. cannot happen in Go; through slices it
-		// goes via Slice (uniform sort), through pointers via Ref. Defensive:
-		return s.opaqueSort(t)
-	}
-	s.inProgress[k] = true
 	si := &structInfo{sort: name, typ: u, named: k}
+	// reserve the name before visiting the fields (a field of a different type with the same short
+	// name, e.g. evm keeper.Keeper inside skyway keeper.Keeper, must not take it)
+	s.structs[k] = si
+	s.bySort[name] = si
 	for i := 0; i < u.NumFields(); i++ {
 		si.fields = append(si.fields, s.SortOf(u.Field(i).Type()))
 	}
-	delete(s.inProgress, k)
-	s.structs[k] = si
-	s.bySort[name] = si
 	var b strings.Builder
 	fmt.Fprintf(&b, "(declare-datatypes ((%s 0)) (((mk-%s", name, name)
 	for i := 0; i < u.NumFields(); i++ {
